@@ -180,6 +180,39 @@ def combine_shapes(order, kind):
     return (combine_shapes(order[:mid], kind), combine_shapes(order[mid:], kind))
 
 
+def embedded_state(psbt, legacy0, txid0):
+    """the unsigned transaction inside a PSBT object: 'ok' or what is wrong with it"""
+    tx = psbt.tx_obj
+    bad = []
+    if any(ti.script_sig.commands for ti in tx.tx_ins):
+        bad.append("non-empty scriptSig")
+    if any(len(ti.witness) for ti in tx.tx_ins):
+        bad.append("non-empty witness")
+    if tx.serialize_legacy() != legacy0:
+        bad.append("legacy serialisation changed")
+    if tx.hash() != txid0:
+        bad.append("txid changed")
+    return "ok" if not bad else ", ".join(bad)
+
+
+def api_snapshot(w, b):
+    """a value snapshot of every object the harness hands to the PSBT API"""
+    tx_lookup, pubkey_lookup, redeem_lookup, witness_lookup = b.lookups
+    snap = {"tx": b.tx_obj.serialize(), "tx.segwit": b.tx_obj.segwit, "tx.locktime": int(b.tx_obj.locktime),
+            "tx.ins": [(ti.prev_tx, ti.prev_index, ti.script_sig.raw_serialize(), int(ti.sequence), tuple(ti.witness.items))
+                       for ti in b.tx_obj.tx_ins],
+            "tx.outs": [(to.amount, to.script_pubkey.raw_serialize()) for to in b.tx_obj.tx_outs]}
+    for h, t in tx_lookup.items():
+        snap["prev:" + h.hex()] = (t.serialize(), t.hash())
+    for k, nm in pubkey_lookup.items():
+        snap["pub:" + k.hex()] = (nm.sec(), nm.point.raw_path, nm.raw_serialize(), nm.root_path)
+    for k, sc in list(redeem_lookup.items()) + list(witness_lookup.items()):
+        snap["script:" + k.hex()] = sc.raw_serialize()
+    for j, r in enumerate(w.roots):
+        snap[f"root:{j}"] = (r.xprv(), r.xpub(), r.private_key.secret, r.chain_code)
+    return snap
+
+
 def wallet_job(spec):
     """everything for one wallet, in a worker process.  Returns lines (kind, case, request, impl answer) for the
     model, predicate outcomes (kind, case, ok, got, want) and finding witnesses."""
@@ -189,6 +222,7 @@ def wallet_job(spec):
     _setup()
     rng = random.Random(spec["seed"])
     m, n, st = spec["m"], spec["n"], spec["stype"]
+    single = st in ("p2pkh", "p2wpkh", "p2sh-p2wpkh")
     lines, preds, findings = [], [], []
     case0 = {"spec": spec}
 
@@ -202,6 +236,8 @@ def wallet_job(spec):
     b = PC.build_psbt(rng, w, n_inputs=spec["n_inputs"], n_spend=spec["n_spend"], with_change=spec["change"],
                       global_xpubs=False, unknowns=False, segwit_flag=spec["segwit_flag"], defer=True)
     orc = PC.Oracle()   # everything the real library answered for this wallet's transaction
+    snap0 = api_snapshot(w, b)
+    legacy0, txid0 = b.tx_obj.serialize_legacy(), b.tx_obj.hash()
 
     # --- creator, updater (stepwise, as the roles of BIP174)
     with PC.Oracle() as o:
@@ -359,7 +395,6 @@ def wallet_job(spec):
                  (r[2] if k == "combine" and q_ is None else r)) for (k, c, q_, r) in lines]
 
     # --- finalizer / extractor per subset
-    single = st in ("p2pkh", "p2wpkh", "p2sh-p2wpkh")
     final_txs = {}
     for S in subsets:
         rawS = results.get(S)
@@ -410,6 +445,63 @@ def wallet_job(spec):
         if back is not None:
             add_pred("reserialize_idempotent", back == rawF, xb(back), xb(rawF), step="finalised", subset=list(S))
         final_txs[S] = ext
+
+    # --- ONE PSBT object driven through the whole workflow and used again after every step (never replaced by a
+    #     re-parsed copy): create, update, every signer, a combine, finalize, final_tx, final_tx again.  After each
+    #     step the object must serialise to bytes that parse back to the same bytes, and its embedded unsigned
+    #     transaction must still be the one it was created from: same txid, legacy format, empty scriptSigs and
+    #     witnesses.  Everything that was handed to the API (Tx, TxIn/TxOut, lookups, HD keys) must be unchanged.
+    def same_object_step(obj, step):
+        try:
+            raw = obj.serialize()
+            back = PC.reparse(raw).serialize()
+            emb = embedded_state(obj, legacy0, txid0)
+            ok = back == raw and emb == "ok"
+            got = [emb, "reparse identical" if back == raw else "reparse differs"]
+        except Exception as e:
+            raw, ok, got = None, False, f"raised {type(e).__name__}: {e}"[:160]
+        add_pred("same_object_workflow", ok, got, ["ok", "reparse identical"], step=step)
+        return raw
+
+    with PC.Oracle() as o:
+        so = PSBT.create(b.tx_obj)
+        same_object_step(so, "create")
+        so.update(*b.lookups)
+        same_object_step(so, "update")
+        if spec["xpubs"]:
+            so.hd_pubs = dict(p.hd_pubs)
+        signers = list(range(n)) if single else list(range(m))
+        for j in signers[: max(1, len(signers) - 1)] if len(signers) > 1 else signers:
+            if j % 2 == 0:
+                so.sign(w.roots[j])
+            else:
+                so.sign_with_private_keys([w.child_priv(j, 0, idx).private_key for idx in sorted(set(b.input_index))])
+            same_object_step(so, f"sign {j}")
+        if len(signers) > 1:
+            so.combine(PC.reparse(signed[signers[-1]]))       # the last needed signer arrives through the combiner
+            same_object_step(so, "combine")
+        want_before = same_object_step(so, "before finalize")
+        if want_before is not None:
+            add_line("parse_ser", line_of("parse_ser", PC.NET, orc.merge(o), xb(want_before)), xb(want_before),
+                     step="same object, signed")
+        try:
+            so.finalize()
+            raw_f = same_object_step(so, "finalize")
+            tx1 = so.final_tx().serialize()
+            raw_1 = same_object_step(so, "final_tx")
+            tx2 = so.final_tx().serialize()
+            raw_2 = same_object_step(so, "final_tx again")
+            so.validate()
+            add_pred("same_object_workflow", raw_f is not None and raw_1 == raw_f and raw_2 == raw_f and tx1 == tx2,
+                     [raw_1 == raw_f, raw_2 == raw_f, tx1 == tx2], [True, True, True], step="extraction leaves the PSBT alone")
+            if raw_1 is not None:
+                add_line("parse_ser", line_of("parse_ser", PC.NET, orc.merge(o), xb(raw_1)), xb(raw_f), step="same object, after final_tx")
+                add_line("final_tx", line_of("final_tx", PC.NET, orc.merge(o), xb(raw_1), "1"), xb(tx1), step="same object, after final_tx")
+        except Exception as e:
+            add_pred("same_object_workflow", False, f"raised {type(e).__name__}: {e}"[:160], "finalize / final_tx / validate succeed", step="finalize+extract")
+    orc.merge(o)
+    snap1 = api_snapshot(w, b)
+    add_pred("api_inputs_unchanged", snap1 == snap0, [k for k in snap0 if snap0[k] != snap1.get(k)][:6], [])
 
     # --- a partial signature that does not verify is refused on load
     if n >= 1 and spec["n_inputs"] >= 1:
@@ -592,7 +684,7 @@ def finding_witnesses():
 def wallet_specs(ctx):
     rng = ctx.rng
     specs = []
-    n_wallets = int(os.environ.get("VERIF_C10_WALLETS", "0")) or ctx.n(60, 400)   # env knob: debugging only
+    n_wallets = int(os.environ.get("VERIF_C10_WALLETS", "0")) or ctx.n(36, 400)   # env knob: debugging only
     combos = []
     for st in PC.SCRIPT_TYPES:
         if st in PC.MULTI_TYPES:
@@ -606,6 +698,8 @@ def wallet_specs(ctx):
         if k >= len(combos) and rng.random() < 0.5:
             st, m, n = rng.choice([c for c in combos if c[2] >= 3])
         n_inputs = 1 + (k % 3)
+        if not ctx.thorough and n == 4 and n_inputs == 3:
+            n_inputs = 2
         specs.append({"seed": f"C10:{ctx.seed}:wallet:{k}", "m": m, "n": n, "stype": st, "n_inputs": n_inputs,
                       "n_spend": rng.choice([1, 1, 2]), "change": rng.random() < 0.6, "xpubs": rng.random() < 0.4,
                       "unknowns": rng.random() < 0.5, "segwit_flag": st not in ("p2pkh", "p2sh") and rng.random() < 0.3,
@@ -647,8 +741,19 @@ def run(ctx):
     for k, (st, m, n) in enumerate([("p2sh", 2, 3), ("p2wsh", 1, 2), ("p2sh-p2wsh", 2, 2), ("p2pkh", 1, 1), ("p2wpkh", 1, 1)]):
         jobs.append(("crafted", {"seed": f"C10:{ctx.seed}:crafted:{k}", "m": m, "n": n, "stype": st, "xpubs": k % 2 == 0,
                                  "n_trunc": ctx.n(12, 80), "n_mut": ctx.n(25, 300)}))
-    for s in wallet_specs(ctx):
+    specs = wallet_specs(ctx)
+    for s in specs:
         jobs.append(("wallet", s))
+    # line-coverage sample: a few small wallets, vectors and one crafted catalogue are replayed in-process by ./check
+    small = sorted(specs, key=lambda s: (s["n"] * s["n_inputs"], s["stype"]))
+    picked = []
+    for st in ("p2pkh", "p2sh-p2wpkh", "p2sh", "p2wsh"):
+        picked += [s for s in small if s["stype"] == st and (s["n"] >= 2 or st in ("p2pkh", "p2sh-p2wpkh"))][:1]
+    for s in picked:
+        rec.cov_pred("wallet_workflow", {"spec": dict(s, hist_budget=6, combine_lines=2)})
+    for e in corpus["valid"][:2] + corpus["invalid"][:2]:
+        rec.cov_pred("bip174_vector", e)
+    rec.cov_pred("crafted_catalogue", {"spec": {"seed": "C10:cov", "m": 1, "n": 2, "stype": "p2sh", "xpubs": True, "n_trunc": 2, "n_mut": 2}})
     # heavy jobs first so that the pool drains evenly
     jobs.sort(key=lambda j: -(j[1]["n"] * j[1]["n_inputs"] if j[0] == "wallet" else 0))
     outs = pmap(_job, jobs, workers=ctx.workers, chunksize=1)
@@ -713,8 +818,10 @@ def _still(ctx, res, kind):
     return False
 
 
-PREDICATES = {
+PREDICATE_DOC = {
     "honest_psbt_loads": "an honest PSBT built by create + update validates, serialises and parses back (all six script types)",
+    "same_object_workflow": "one PSBT object used through create, update, sign, combine, finalize, final_tx (twice): after every step it re-parses to identical bytes and its embedded transaction is unchanged (txid, legacy format, empty scriptSigs / witnesses)",
+    "api_inputs_unchanged": "the Tx, TxIn/TxOut, lookups and HD keys handed to the API are unchanged after the whole workflow",
     "reserialize_idempotent": "serialize(parse(serialize p)) == serialize p on the real code, after every step",
     "order_independent": "every permutation / combine tree / sign-then-combine mix of one signer subset gives the same bytes",
     "combine_idempotent": "p.combine(p) serialises as p",
@@ -725,3 +832,32 @@ PREDICATES = {
     "bip174_valid_roundtrip": "valid BIP174 vectors re-serialise to the identical bytes",
     "bip174_invalid_refused": "invalid BIP174 vectors are refused",
 }
+
+
+# --------------------------------------------------------------------------------- predicates, re-executable
+def _job_outcome(res):
+    bad = [(k, c.get("step") or c.get("what") or c.get("subset"), got) for k, c, ok, got, want in res["preds"] if not ok]
+    return not bad, bad[:5], []
+
+
+def p_wallet_workflow(case):
+    """the whole per-wallet scenario (create, update, sign, combine histories, finalize, extract, same-object reuse)"""
+    return _job_outcome(wallet_job(case["spec"]))
+
+
+def p_bip174_vector(case):
+    return _job_outcome(corpus_job(case))
+
+
+def p_crafted_catalogue(case):
+    return _job_outcome(crafted_job(case["spec"]))
+
+
+PREDICATES = {"wallet_workflow": p_wallet_workflow, "bip174_vector": p_bip174_vector, "crafted_catalogue": p_crafted_catalogue}
+
+
+def eval_pred(kind, case):
+    try:
+        return PREDICATES[kind](case)
+    except Exception as e:
+        return False, "raised " + type(e).__name__, "no exception"
